@@ -71,7 +71,10 @@ impl TaskPool {
         crate::verif::point(crate::verif::FP_POOL_SPAWN, 0, 0);
         let mut queue = self.sharing.todo.lock().unwrap();
 
-        if self.sharing.waiting_tasks.load(Ordering::Acquire) == 0 {
+        // A woken worker stays counted as waiting until it has re-acquired the lock, so the
+        // idle workers that are still free to take this task are those not already matched
+        // by a queued task.
+        if self.sharing.waiting_tasks.load(Ordering::Acquire) <= queue.len() {
             #[cfg(tiny_http_verif)]
             crate::verif::point(crate::verif::FP_POOL_DISPATCH, 0, queue.len());
             self.add_thread(Some(code));
